@@ -536,14 +536,32 @@ func Explore(t *testing.T, r *Run, o *SchedOpts) {
 		}
 		if k, ok := x.Vals["__viol_key"].(string); ok && k != "" {
 			what := x.Vals["__viol_what"].(string)
-			// determinism: the same choice list must give the same observations, twice more
+			// determinism: the same choice list must give the same observations, twice more.
+			// The code under test may itself be nondeterministic under one schedule (Go's map
+			// iteration order decides e.g. which flow is attached first): then the schedule
+			// is replayed up to 12 times and the violation is reported only if the same
+			// oracle key is reproduced twice more; a violation that never reproduces is an
+			// infrastructure error (exit 3), not a finding.
 			full := append([]int{}, x.choices...)
 			y1 := runOne(t, o, full, true)
 			y2 := runOne(t, o, full, false)
 			if strings.Join(y1.Log, "\n") != strings.Join(x.Log, "\n") || strings.Join(y2.Log, "\n") != strings.Join(x.Log, "\n") ||
 				y1.Vals["__viol_key"] != k || y2.Vals["__viol_key"] != k {
-				fmt.Fprintf(os.Stderr, "NONDETERMINISTIC-REPLAY scenario %s choices %v:\n first: %v\n again: %v\n again: %v\n", o.Name, full, x.Log, y1.Log, y2.Log)
-				os.Exit(3)
+				repro := 0
+				var yk *Exec
+				for i := 0; i < 12 && repro < 2; i++ {
+					y := runOne(t, o, full, true)
+					if y.Diverged == "" && y.Vals["__viol_key"] == k {
+						repro++
+						yk = y
+					}
+				}
+				if repro < 2 {
+					fmt.Fprintf(os.Stderr, "NONDETERMINISTIC-REPLAY scenario %s choices %v:\n first: %v\n again: %v\n again: %v\n", o.Name, full, x.Log, y1.Log, y2.Log)
+					os.Exit(3)
+				}
+				y1 = yk
+				what += " [the outcome of this schedule also depends on Go map iteration order inside the code under test; reproduced in repeated replays]"
 			}
 			r.Violation(k, fmt.Sprintf("scenario %s schedule %v: %s", o.Name, full, what),
 				schedReplay{o.Name, full, fmt.Sprintf("preempt<=%d earlyT<=%d", o.MaxPreempt, o.MaxEarlyT), y1.Trace, x.Log})
@@ -643,6 +661,11 @@ func ReplaySchedule(t *testing.T, o *SchedOpts, choices []int) (key string) {
 		fmt.Printf("--- oracle: %s: %v\n", k, x.Vals["__viol_what"])
 	}
 	return k
+}
+
+// TraceOne runs one schedule and returns its trace of scheduling points (debug aid).
+func TraceOne(t *testing.T, o *SchedOpts, choices []int) []string {
+	return runOne(t, o, choices, true).Trace
 }
 
 func stripTimes(log []string) []string {
